@@ -28,6 +28,8 @@ pub enum FaultMode {
 #[derive(Clone, Debug)]
 pub struct Mark {
     pub at: usize,
+    /// number of backend calls made before this mark
+    pub calls_at: u64,
     pub d: usize,
     pub r: usize,
     pub phase: &'static str,
@@ -98,7 +100,8 @@ impl RecBackend {
     pub fn mark(&self, d: usize, r: usize, phase: &'static str) {
         let mut g = self.lock();
         let at = g.log.len();
-        g.marks.push(Mark { at, d, r, phase });
+        let calls_at = g.calls;
+        g.marks.push(Mark { at, calls_at, d, r, phase });
     }
 
     pub fn log_len(&self) -> usize {
